@@ -13,7 +13,8 @@ import history
 
 MOD = {
     "WriterContract": ["writeInto_ok", "writeInto_short", "writeInto_err", "writeInto_no_panic", "written_eq_image",
-                       "prefill_independent", "tail_untouched", "failed_write_untouched", "length_preserved"],
+                       "prefill_independent", "tail_untouched", "failed_write_untouched", "length_preserved", "write_again",
+                       "write_unchecked_exact"],
     "Writers": ["writeHeader_spec", "writeHeader_panic_iff", "writePadding_spec", "checkPadding_ok_iff", "rb_refines",
                 "sr_refines", "rr_refines", "app_refines", "bye_refines", "unknown_refines", "custom_refines",
                 "item_refines", "chunk_refines", "sdes_refines", "nack_sorted_empty", "nack_sorted_add", "nack_refines",
@@ -114,7 +115,7 @@ OBLIGATIONS = {
             "fast_nack_eq", "fast_fir_eq", "fast_sli_eq"],
     "C16": RULES + ["compound_accept_iff", "sizes_bounded", "checkPadding_ok_iff"],
     "C17": REFINES + ["prefill_independent", "tail_untouched", "failed_write_untouched", "writeInto_err",
-                      "writeInto_short"],
+                      "writeInto_short", "write_again", "write_unchecked_exact"],
     "C18": ["checkPacket_err_truthful", "checkPacket_short", "checkPacket_length_mismatch", "sr_err_truthful",
             "rr_err_truthful", "bye_err_truthful", "app_err_truthful", "fb_err_truthful", "unknown_err_truthful",
             "rb_err_truthful", "sdes_err_truthful", "compound_err_truthful", "packet_parse_short", "packet_parse_eq",
